@@ -341,15 +341,71 @@ JUDGE_WORKERS = 8
 JUDGE_TIMEOUT_S = 2400             # per driver process; the thorough tier of C18 needed > 900 s on a loaded machine
 
 
-def _run_driver(pid, path):
+SCENARIO_BUDGET_S = 300            # a single scenario (reset block) on which the judge works longer than this is set aside as UNJUDGED
+
+
+class _Stuck(Exception):
+    def __init__(self, line):
+        self.line = line
+
+
+def _run_driver_once(pid, path):
+    """run the compiled judge on a file; a watchdog follows its progress markers (`@ <line>` on stderr at every scenario start):
+    no new marker for SCENARIO_BUDGET_S seconds => the judge is killed and _Stuck(line of the scenario it was working on) is raised"""
+    import threading
     with open(path) as fin:
-        try:
-            p = subprocess.run([DRIVER, pid], stdin=fin, stdout=subprocess.PIPE, stderr=subprocess.PIPE, text=True, timeout=JUDGE_TIMEOUT_S)
-        except subprocess.TimeoutExpired:
-            raise Internal("the Lean driver (judge %s) did not finish within %d s on %s" % (pid, JUDGE_TIMEOUT_S, path))
+        p = subprocess.Popen([DRIVER, pid], stdin=fin, stdout=subprocess.PIPE, stderr=subprocess.PIPE, text=True)
+    state = {"line": 0, "t": time.time(), "err": []}
+
+    def follow():
+        for l in p.stderr:
+            if l.startswith("@ "):
+                try:
+                    state["line"], state["t"] = int(l[2:]), time.time()
+                except ValueError:
+                    pass
+            else:
+                state["err"].append(l)
+    outbuf = []
+
+    def collect():
+        outbuf.append(p.stdout.read())
+    t1, t2 = threading.Thread(target=follow, daemon=True), threading.Thread(target=collect, daemon=True)
+    t1.start(); t2.start()
+    t0 = time.time()
+    while p.poll() is None:
+        time.sleep(0.5)
+        if time.time() - state["t"] > SCENARIO_BUDGET_S or time.time() - t0 > JUDGE_TIMEOUT_S:
+            p.kill(); p.wait()
+            raise _Stuck(state["line"])
+    t1.join(5); t2.join(5)
     if p.returncode != 0:
-        raise Internal("driver failed (rc=%d): %s" % (p.returncode, p.stderr[-2000:]))
-    return p.stdout
+        raise Internal("driver failed (rc=%d): %s" % (p.returncode, "".join(state["err"])[-2000:]))
+    return outbuf[0] if outbuf else ""
+
+
+UNJUDGED = []     # (judge, first line of the scenario) set aside in this process; reported in the evidence, never a verdict
+
+
+def _run_driver(pid, path):
+    """judge a file; a scenario that exhausts SCENARIO_BUDGET_S (a state-set explosion of the subset construction on one real trace) is blanked out
+    (its lines become comments, so line numbers stay) and the file is judged again without it - at most 6 times"""
+    for _ in range(6):
+        try:
+            return _run_driver_once(pid, path)
+        except _Stuck as st:
+            lines = open(path).read().split("\n")
+            i = max(st.line - 1, 0)              # 0-based index of the `reset` line of the stuck scenario (0: before the first marker)
+            j = i + 1
+            while j < len(lines) and lines[j].strip() != "reset":
+                j += 1
+            head = next((l for l in lines[i:j] if l.startswith("#")), "")
+            for k in range(i, j):
+                lines[k] = "# unjudged (judge budget exhausted): " + lines[k]
+            open(path, "w").write("\n".join(lines))
+            UNJUDGED.append((pid, "%s line %d %s" % (os.path.basename(path), st.line, head[:160])))
+            print("WARNING: judge %s exhausted its budget of %d s on the scenario at line %d of %s; set aside as unjudged (no verdict)" % (pid, SCENARIO_BUDGET_S, st.line, path))
+    raise Internal("the Lean driver (judge %s) exhausted its per-scenario budget on more than 6 scenarios of %s" % (pid, path))
 
 
 def _parse_driver(out, offset=0):
